@@ -125,14 +125,20 @@ class FPFormat:
         return QuantiseBackward.apply(x)  # type: ignore
 
 
-def format_to_tuple(format: FPFormat) -> Tuple[int, int]:
-    """Convert the format into a tuple of `(exponent_bits, mantissa_bits)`"""
-    return (format.exponent_bits, format.mantissa_bits)
+def format_to_tuple(format: FPFormat) -> Tuple[int, int, str, int]:
+    """Convert the format into a tuple of
+    `(exponent_bits, mantissa_bits, rounding, srbits)`"""
+    return (
+        format.exponent_bits,
+        format.mantissa_bits,
+        format.rounding,
+        format.srbits,
+    )
 
 
-def tuple_to_format(t: Tuple[int, int]) -> FPFormat:
-    """Given a tuple of `(exponent_bits, mantissa_bits)` returns the corresponding
-    :class:`FPFormat`"""
+def tuple_to_format(t: Tuple[int, int, str, int]) -> FPFormat:
+    """Given a tuple of `(exponent_bits, mantissa_bits, rounding, srbits)` (or just
+    the first two) returns the corresponding :class:`FPFormat`"""
     return FPFormat(*t)
 
 
